@@ -449,7 +449,6 @@ def run(ctx, with_contradiction=True):
     ne = find(lambda a: a[0] == 'cmp' and a[1] == 'Le' and a[2] == '1' and a[3].startswith('len('))
     rep.check(len(ne) >= 2, 'R-C15-3', 'R-C15-3/non-empty-LR', 'empty L / R vectors are rejected (%d guards)' % len(ne), 'only %d non-emptiness guards on L / R' % len(ne), ctx.where(dec))
     # the leftover buffer is empty: `len() == 0`, `is_empty()`, or `next().is_none()` on it
-    lo = find(lambda a: (a[0] == 'cmp' and 'into_buffer' in ''.join(a[2:4]) and (a[1] in ('Eq', 'Le') and '0' in (a[2], a[3]))) or (a[0] == 'fail' and a[1].startswith('each(into_buffer(')))
     # (the remainder is *empty*: len(remainder) == 0, in either order of the operands, or remainder.next() is None -- not any test that mentions it)
     def _empty_test(a, what):
         if a[0] == 'cmp' and a[1] in ('Eq', 'Le'):
@@ -459,6 +458,7 @@ def run(ctx, with_contradiction=True):
             if a[1] == 'Le' and y == '0' and x.startswith('len(%s(' % what):
                 return True
         return a[0] == 'fail' and a[1].startswith('each(%s(' % what)
+    lo = find(lambda a: _empty_test(a, 'into_buffer'))
     rm = find(lambda a: _empty_test(a, 'remainder'))
     if not lo:
         # .. or the pairs are taken by hand and a flag remembers an element whose partner is missing: under "the partner's next() is None"
